@@ -297,5 +297,15 @@ pub fn error_mode(name: &str) -> dnp3::link::LinkErrorMode {
 /// settle: let every task run to quiescence at the current virtual instant (+1 ms)
 pub async fn settle() {
     tokio::time::sleep(std::time::Duration::from_millis(1)).await;
+    quiesce().await;
     tick();
+}
+
+/// let everything that became runnable at the current virtual instant (timers that fired together
+/// with the driver's own sleep, and what they caused) run before the driver looks at the outputs.
+/// Yielding never advances the paused clock.
+pub async fn quiesce() {
+    for _ in 0..64 {
+        tokio::task::yield_now().await;
+    }
 }
